@@ -7,6 +7,7 @@
 import ChalkModel.Wire
 import ChalkModel.Eval
 import ChalkModel.Contract
+import ChalkModel.Compat
 
 namespace Chalk.Sem
 open Chalk Chalk.Sexp
@@ -113,6 +114,10 @@ def opsSem : Sexp → Option Sexp
   | .list [.atom "judge-ground", p, g, fuel, ans] => do
       let v := evalGoal (← programOfSexp? p) (← fuel.nat?) [] (← goalOfSexp? g)
       some (judgeGround v (groundAnswerOfSexp ans))
+  | .list [.atom "compatible", a, b] =>
+      let (x, y) := (answerOfSexp a, answerOfSexp b)
+      some (if compatible x y then .list [.atom "accepted", .atom "compatible"]
+            else .list [.atom "rejected", .atom "solvers_contradict", .list []])
   | .list [.atom "judge-answer", p, g, nvars, fuel, sig, depth, maxc, slg, ans] => do
       let P ← programOfSexp? p
       let pool := termsUpTo (← sigOfSexp? sig) (← depth.nat?)
